@@ -413,6 +413,17 @@ def handlePut (hash : Bytes → Name) (fs : FS) (p : PutIn) : List Ev × Resp :=
   else if p.compareCancelled then (compareEvs fs p.h, .disconnect)
   else ((compareEvs fs p.h) ++ (putCore hash fs p).1, (putCore hash fs p).2)
 
+/-! ### Two operations at the same time -/
+
+/-- Events of two concurrently running operations merged according to a schedule (`true`: the
+first operation's next event runs). A schedule that ends early is a crash at that moment. -/
+def interleave : List Bool → List Ev → List Ev → List Ev
+  | [], _, _ => []
+  | true :: s, a :: as, bs => a :: interleave s as bs
+  | true :: s, [], bs => interleave s [] bs
+  | false :: s, as, b :: bs => b :: interleave s as bs
+  | false :: s, as, [] => interleave s as []
+
 /-! ### Histories with crashes -/
 
 /-- The hash whose block a file of this name is (32-hex name: what GET/index show) or can become
